@@ -145,6 +145,30 @@ def check_misses(ctx, inst, rng, case):
             ctx.violation(f"miss-raises-{type(e).__name__}", f"hasattr({cls.__name__}, {name!r}) raised {e!r}", c)
 
 
+def check_list_names(ctx, inst, case):
+    """The names under which a class declares its REPEATED children: the members live in the list, nothing is stored under
+    these names.  Whatever reading such a name gives, hasattr() and getattr() with a default must answer instead of raising."""
+    cls = type(inst)
+    for name, t in ref_decl.decl(cls).items():
+        if ref_decl.kind_of(t) not in ("listagg", "listelem"):
+            continue
+        ctx.ev()
+        ctx.count("list_names_judged")
+        c = dict(case, name=name)
+        try:
+            hasattr(inst, name)
+            getattr(inst, name, None)
+        except Exception as e:
+            ctx.violation(f"list-name/hasattr-raises-{type(e).__name__}", f"hasattr/getattr-default({cls.__name__}, {name!r}) raised {e!r}", c)
+            continue
+        try:
+            getattr(inst, name)
+        except AttributeError:
+            pass
+        except Exception as e:
+            ctx.violation(f"list-name/read-raises-{type(e).__name__}", f"{cls.__name__}().{name} raised {e!r} (neither a value nor AttributeError)", c)
+
+
 def check_copies(ctx, inst, case):
     _check_copies(ctx, inst, case)
     # the same model as the library's own reader builds it (values converted from text carry the library's own tzinfo etc.)
@@ -291,6 +315,7 @@ def check_shortcuts_pure(ctx, inst, case):
 def probe(ctx, inst, rng, case):
     check_flat(ctx, inst, case)
     check_misses(ctx, inst, rng, case)
+    check_list_names(ctx, inst, case)
     check_shortcuts_pure(ctx, inst, case)
     check_copies(ctx, inst, case)
     ctx.distinct((case["cls"], case["seedstr"], case.get("pattern", "")))
